@@ -15,6 +15,7 @@ from typing import Callable, Dict, List, Optional
 
 import z3
 
+from . import smt
 from .irparse import (Const, Function, IRUnsupported, Instr, Local, Module, Ty,
                       I1, I8, I32, I64, FLOAT, DOUBLE, VOID)
 
@@ -90,6 +91,15 @@ class Fn:
 NULL = Ptr(0, 0)
 
 
+def narrow_bits(lo, hi, width):
+    """n if [lo,hi] == [0, 2^n - 1] with n < width, else None"""
+    if lo == 0 and hi is not None and hi > 0 and (hi + 1) & hi == 0:
+        n = hi.bit_length()
+        if n < width:
+            return n
+    return None
+
+
 def mask(w):
     return (1 << w) - 1
 
@@ -118,6 +128,9 @@ def bv_from_z3(e):
     return BV(e.size(), e)
 
 
+FP_SYMBOLIC = [False]
+
+
 def fp_from_z3(e, k):
     e = simp(e)
     if z3.is_fp_value(e) and not e.isNaN():
@@ -127,6 +140,7 @@ def fp_from_z3(e, k):
             if k == 32:
                 return FP(32, struct.unpack("<f", struct.pack("<I", n))[0])
             return FP(64, struct.unpack("<d", struct.pack("<Q", n))[0])
+    FP_SYMBOLIC[0] = True
     return FP(k, e)
 
 
@@ -270,6 +284,9 @@ class Executor:
         self.max_paths = max_paths
         self.solver = z3.Solver()
         self.solver.set("timeout", solver_timeout_ms)
+        self.solver_timeout_ms = solver_timeout_ms
+        self.cur_state = None
+        self.force_fresh = False
         self.handlers: Dict[str, Callable] = {}
         self.global_objs: Dict[str, int] = {}
         self.obj_names: Dict[int, str] = {}
@@ -279,31 +296,47 @@ class Executor:
         install_default_handlers(self)
 
     # ---------------------------------------------------------- solver
-    def check(self, *extra):
+    def _query(self, extra, want_model, timeout_ms=None):
+        """BV-only: incremental solver (push/pop).  Once FP terms exist: fresh portfolio query over the
+        current path condition (z3 tactic pipeline, cvc5/z3 binaries on unknown)."""
         t = time.time()
-        self.solver.push()
-        for e in extra:
-            self.solver.add(e)
-        r = self.solver.check()
-        self.solver.pop()
-        self.stats["queries"] += 1
-        self.stats["solver_s"] += time.time() - t
-        s = str(r)
-        if s == "unknown":
-            self.stats["unknown"] += 1
-        return s
+        try:
+            if (FP_SYMBOLIC[0] or self.force_fresh) and self.cur_state is not None:
+                r, m = smt.solve(list(self.cur_state.pc) + list(extra), timeout_ms=timeout_ms or self.solver_timeout_ms,
+                                 model_vars=[v for _, v in self.cur_state.inputs] if want_model else None)
+                return r, m
+            self.solver.push()
+            try:
+                for e in extra:
+                    self.solver.add(e)
+                r = str(self.solver.check())
+                m = None
+                if r == "sat" and want_model:
+                    zm = self.solver.model()
+                    m = {n: smt._val(zm.eval(v, model_completion=True)) for n, v in self.cur_state.inputs}
+                return r, m
+            finally:
+                self.solver.pop()
+        finally:
+            self.stats["queries"] += 1
+            self.stats["solver_s"] += time.time() - t
 
-    def model_for(self, *extra):
-        t = time.time()
-        self.solver.push()
-        for e in extra:
-            self.solver.add(e)
-        r = self.solver.check()
-        m = self.solver.model() if str(r) == "sat" else None
-        self.solver.pop()
-        self.stats["queries"] += 1
-        self.stats["solver_s"] += time.time() - t
-        return str(r), m
+    def check(self, *extra):
+        r, _ = self._query(extra, False)
+        if r == "unknown":
+            self.stats["unknown"] += 1
+        return r
+
+    def model_for(self, *extra, timeout_ms=None):
+        """-> (status, {input name: python value})"""
+        r, m = self._query(extra, True, timeout_ms)
+        if r == "unknown":
+            self.stats["unknown"] += 1
+        return r, m
+
+    def eval_under(self, st, assignment, term):
+        subs = [(v, smt.to_z3_value(v, assignment[n])) for n, v in st.inputs if n in assignment]
+        return simp(z3.substitute(term, *subs)) if subs else simp(term)
 
     def concretize(self, state, bv: BV, limit=64):
         """Return a python int for bv under the current path condition, forking if needed."""
@@ -312,7 +345,15 @@ class Executor:
         r, m = self.model_for()
         if r != "sat":
             raise PathEnd("infeasible-or-unknown-at-concretize")
-        k = m.eval(bv.v, model_completion=True).as_long()
+        kv = self.eval_under(state, m, bv.v)
+        if not z3.is_bv_value(kv):
+            ss = z3.Solver()
+            for c in state.pc:
+                ss.add(c)
+            if str(ss.check()) != "sat":
+                raise PathEnd("infeasible-or-unknown-at-concretize")
+            kv = ss.model().eval(bv.v, model_completion=True)
+        k = kv.as_long()
         kz = z3.BitVecVal(k, bv.w)
         if self.check(bv.v != kz) == "unsat":
             return k
@@ -652,19 +693,22 @@ class Executor:
         raise IRUnsupported("fresh of " + repr(rty))
 
     def new_input(self, st, kind, key, width, lo=None, hi=None):
-        """Create (or re-create by name) the k-th input of (kind,key)."""
+        """Create (or re-create by name) the k-th input of (kind,key).  A range 0..2^n-1 is encoded
+        structurally (an n-bit variable, zero-extended) so that upper bits are constants for the solver."""
         k = st.in_count.get((kind, key), 0)
         st.in_count[(kind, key)] = k + 1
         name = f"in_{kind}_{key}_{k}"
+        nb = narrow_bits(lo, hi, width)
+        if nb is not None:
+            var = z3.BitVec(name, nb)
+            st.inputs.append((name, var))
+            return BV(width, z3.ZeroExt(width - nb, var) if nb < width else var)
         var = z3.BitVec(name, width)
         st.inputs.append((name, var))
-        cons = []
         if lo is not None:
-            cons.append(z3.UGE(var, z3.BitVecVal(lo, width)))
+            self.assume(st, z3.UGE(var, z3.BitVecVal(lo, width)))
         if hi is not None:
-            cons.append(z3.ULE(var, z3.BitVecVal(hi, width)))
-        for c in cons:
-            self.assume(st, c)
+            self.assume(st, z3.ULE(var, z3.BitVecVal(hi, width)))
         return BV(width, var)
 
     def assume(self, st, cond):
@@ -693,6 +737,8 @@ class Executor:
         self._on_path = on_path or self.results.append
         st.user["_entries"] = list(entry_calls)
         st.user["_entry_i"] = 0
+        FP_SYMBOLIC[0] = False
+        self.cur_state = st
         self.solver.push()
         try:
             for c in st.pc:
@@ -718,10 +764,12 @@ class Executor:
         return True
 
     def _finish(self, st, status):
+        self.cur_state = st
         self.stats["paths"] += 1
         self._on_path(PathResult(st, status))
 
     def _run(self, st: State):
+        self.cur_state = st
         if self.stats["paths"] >= self.max_paths:
             self._finish(st, "truncated:max-paths")
             return
